@@ -326,10 +326,13 @@ class G:
             # without it the mask argument may exceed what ldn's own assertion allows
             self.asserts_extra.add("assert m <= 4")
         t = self.fresh("v")
-        cond = self.r.choice(["k < m", "k < m", "k < m", "k == m", "k + 1 <= m", "m > k"])
+        cond = self.r.choice(["k < m", "k < m", "k + 1 == m", "k + 1 == m", "k + 1 <= m", "m > k"])
         out = [f"{t}: f32[4]", "for k in seq(0, 4):", f"    if {cond}:", f"        {t}[k] = B[k]"]
-        if self.r.random() < 0.7:
+        if self.r.random() < 0.6:
             out += ["    else:", f"        {t}[k] = {self.const()}"]
+        elif self.r.random() < 0.7:
+            # lanes the mask leaves alone hold defined values, so a wrong mask is observable
+            out[1:1] = ["for k in seq(0, 4):", f"    {t}[k] = {self.const()}"]
         out += ["for k in seq(0, 4):", f"    y[0] += {t}[k]"]
         return out
 
